@@ -3,6 +3,7 @@
 P=$1; ID=$2; shift 2
 cd /repo && git diff --quiet || { echo "repo dirty"; exit 9; }
 git -C /repo apply "$P" 2>/dev/null || git -C /repo apply -3 "$P" || { echo "PATCH DOES NOT APPLY"; exit 9; }
+trap 'git -C /repo checkout -- . ; git -C /repo reset -q' EXIT INT TERM HUP
 cd /verif && timeout 3000 ./check $ID --no-evidence "$@" > /tmp/try_seed.log 2>&1; RC=$?
 git -C /repo checkout -- . ; git -C /repo reset -q
 grep -E "^(VIOLATION|KNOWN|INCONCLUSIVE)" /tmp/try_seed.log | cut -c1-260 | head -6; tail -1 /tmp/try_seed.log | cut -c1-250
